@@ -7,6 +7,8 @@ pub mod provision_wrapper;
 pub mod proxy_server_wrapper;
 pub mod redirector_wrapper;
 pub mod telemetry_wrapper;
+#[cfg(azure_guestproxyagent_verif)]
+pub mod verif_sched;
 
 use tokio_util::sync::CancellationToken;
 
